@@ -42,12 +42,28 @@ macro_rules! vfail {
 // ---------------------------------------------------------------------------------------
 pub static WAKES: AtomicUsize = AtomicUsize::new(0);
 pub static CLONES: AtomicUsize = AtomicUsize::new(0);
+/// Observation points for "what is visible at the moment of the wake-up" (C12).
+pub static mut WAKE_OBS_CREDIT: *const core::sync::atomic::AtomicU32 = core::ptr::null();
+pub static mut WAKE_OBS_CLOSED: *const core::sync::atomic::AtomicBool = core::ptr::null();
+pub static mut WAKE_SEEN_CREDIT: u32 = 0;
+pub static mut WAKE_SEEN_CLOSED: bool = false;
 fn cw_raw() -> RawWaker {
     fn clone(_: *const ()) -> RawWaker {
         CLONES.fetch_add(1, Ordering::Relaxed);
         cw_raw()
     }
     fn wake(_: *const ()) {
+        // what a task re-polled at this very moment would see (first wake-up only)
+        unsafe {
+            if WAKES.load(Ordering::Relaxed) == 0 {
+                if !WAKE_OBS_CREDIT.is_null() {
+                    WAKE_SEEN_CREDIT = (*WAKE_OBS_CREDIT).load(Ordering::Acquire);
+                }
+                if !WAKE_OBS_CLOSED.is_null() {
+                    WAKE_SEEN_CLOSED = (*WAKE_OBS_CLOSED).load(Ordering::Acquire);
+                }
+            }
+        }
         WAKES.fetch_add(1, Ordering::Relaxed);
     }
     fn drop(_: *const ()) {}
